@@ -5,7 +5,8 @@ From Coq Require Import List NArith ZArith Bool Lia Sorted.
 From YV Require Import Gen.PatConsts Pat.Syntax Pat.Sem Pat.Matcher Pat.MatcherProofs
   Pat.Modifiers Pat.ModifiersProofs Pat.MatchList Pat.MatchListProofs
   Pat.C01Check Pat.C01CheckProofs Pat.Base64 Pat.Base64Proofs Pat.Chain Pat.ChainProofs
-  Pat.Atoms Pat.AtomsProofs Pat.Pipeline Pat.PipelineProofs Pat.PipelineB64Proofs.
+  Pat.Atoms Pat.AtomsProofs Pat.Pipeline Pat.PipelineProofs Pat.PipelineB64Proofs
+  Pat.ChainRun Pat.ChainRunProofs.
 Import ListNotations.
 
 (* ---- R |= S : the reference matcher ------------------------------------ *)
@@ -233,3 +234,86 @@ Theorem base64_pipeline_sound_ascii : forall lit d p pos alpha s e,
   sp_match (mkSP (KBase64 lit p alpha false) (mkF false false false false)) (0, 0)%N d s = Some (e, None).
 Proof. exact pipeline_base64_sound_ascii_partial. Qed.
 Print Assumptions base64_pipeline_sound_ascii.
+
+(* ---- chains at run time (Pat/ChainRun.v) ---------------------------------------- *)
+(* whatever the pieces, the verified piece matches (events) and their order: every
+   reported match is a chain of piece matches, head first, every gap within its
+   bounds, closed by a match of the last piece *)
+Theorem chain_bookkeeping_sound : forall pieces (PM : nat -> nat -> nat -> Prop) evs y,
+  (forall id s e, In (id, s, e) evs -> PM id s e) -> In y (run_chain pieces evs) ->
+  confirmed pieces PM y.
+Proof. exact run_chain_sound. Qed.
+Print Assumptions chain_bookkeeping_sound.
+
+(* ... and the list is strictly ascending, one match per start *)
+Theorem chain_reports_sorted : forall pieces evs, sorted (run_chain pieces evs).
+Proof. exact run_chain_sorted. Qed.
+Print Assumptions chain_reports_sorted.
+
+(* the pieces being those of Chain.split_at_large_gaps and the events matches of the
+   pieces: every reported match is a match of the joined chain *)
+Theorem chain_reports_matches_of_the_chain : forall nc d c pieces, chain_shape pieces c ->
+  forall evs y,
+  (forall id s e, In (id, s, e) evs -> PMre nc d (chain_res c) id s e) ->
+  In y (run_chain pieces evs) ->
+  exists s te, m_start y = N.of_nat s /\ m_end y = N.of_nat te /\ M nc d (join_chain c) s te.
+Proof. exact chain_sound. Qed.
+Print Assumptions chain_reports_matches_of_the_chain.
+
+(* end to end for a chained hex pattern (abstract piece matcher: one end per start) *)
+Theorem chained_hex_pattern_sound : forall items d y,
+  In y (scan_chain_abs false false false (split_at_large_gaps items) d) ->
+  exists s len, m_start y = N.of_nat s /\ m_end y = N.of_nat (s + len) /\ genuine (PHex (rcat items)) d s len None.
+Proof. exact chain_hex_sound. Qed.
+Print Assumptions chained_hex_pattern_sound.
+
+(* literal pieces with the real atoms and hits (atoms_ok and hits_exact are checked on
+   the real dump and trace in K stream (e)): the events are exactly the occurrences
+   of the pieces, and every reported match is a match of the pattern *)
+Theorem chain_literal_events_sound : forall pieces atoms d hits,
+  (forall id p, nth_error pieces id = Some p -> cp_regexp p = false ->
+     atoms_ok (piece_sp p) (0%N, 0%N) (filter (fun a => Nat.eqb (a_sp a) id) atoms) = true) ->
+  hits_exact atoms d hits ->
+  forall id s e, In (id, s, e) (hit_events pieces atoms hits d) ->
+  exists p k, nth_error pieces id = Some p /\ cp_regexp p = false /\
+              sp_match (piece_sp p) (0%N, 0%N) d s = Some (e, k).
+Proof. exact hit_events_sound. Qed.
+Print Assumptions chain_literal_events_sound.
+
+Theorem chain_literal_events_complete : forall pieces atoms d hits,
+  (forall id p, nth_error pieces id = Some p -> cp_regexp p = false ->
+     atoms_ok (piece_sp p) (0%N, 0%N) (filter (fun a => Nat.eqb (a_sp a) id) atoms) = true) ->
+  hits_exact atoms d hits ->
+  forall id p s e k, nth_error pieces id = Some p -> cp_regexp p = false ->
+  sp_match (piece_sp p) (0%N, 0%N) d s = Some (e, k) -> In (id, s, e) (hit_events pieces atoms hits d).
+Proof. exact hit_events_complete. Qed.
+Print Assumptions chain_literal_events_complete.
+
+Theorem chain_of_literals_sound : forall nc items pieces atoms d hits y,
+  let c := split_at_large_gaps items in
+  chain_shape pieces c ->
+  (forall id p, nth_error pieces id = Some p ->
+     cp_regexp p = false /\ cp_flags p = mkF false nc false false /\
+     exists r, nth_error (chain_res c) id = Some r /\ r = rlit (cp_lit p)) ->
+  (forall id p, nth_error pieces id = Some p -> cp_regexp p = false ->
+     atoms_ok (piece_sp p) (0%N, 0%N) (filter (fun a => Nat.eqb (a_sp a) id) atoms) = true) ->
+  hits_exact atoms d hits ->
+  In y (scan_chain pieces atoms hits d) ->
+  exists s te, m_start y = N.of_nat s /\ m_end y = N.of_nat te /\ M nc d (rcat items) s te.
+Proof. exact chain_literal_sound. Qed.
+Print Assumptions chain_of_literals_sound.
+
+(* REFUTED on the faithful model (both replayed on the implementation: known findings):
+   completeness of starts with one end per (piece, start) and a bounded gap ... *)
+Theorem chain_misses_with_one_end_per_start :
+  exists items d, ~ chain_complete_starts false (split_at_large_gaps items) d
+                      (scan_chain_abs false false false (split_at_large_gaps items) d).
+Proof. exact chain_complete_one_end_refuted. Qed.
+Print Assumptions chain_misses_with_one_end_per_start.
+
+(* ... and soundness of the wide form, whose gap is a byte distance *)
+Theorem chain_wide_form_gap_not_wide :
+  exists items d y, In y (scan_chain_abs false true true (split_at_large_gaps items) d) /\
+    exists s te, m_start y = N.of_nat s /\ m_end y = N.of_nat te /\ ~ M false d (widen_re (rcat items)) s te.
+Proof. exact chain_wide_gap_refuted. Qed.
+Print Assumptions chain_wide_form_gap_not_wide.
